@@ -32,7 +32,7 @@ ASSUMPTIONS = ['default column names (the function hard-codes cost / date / peri
                'known-finding key one-sided-level-below-half']
 EXHAUSTIVE = {'quick': False, 'thorough': False}
 MINIMA = {'quick': {'degenerate_cost_reports': 10, 'refits': 120, 'reports_ok': 400, 'dates_checked': 10000, 'outside_period_cases': 80, 'distinct_nontrivial': 500},
-          'thorough': {'degenerate_cost_reports': 250, 'refits': 2000, 'reports_ok': 8000, 'dates_checked': 150000, 'outside_period_cases': 1200, 'distinct_nontrivial': 8000}}
+          'thorough': {'degenerate_cost_reports': 250, 'refits': 2000, 'reports_ok': 7500, 'dates_checked': 150000, 'outside_period_cases': 1200, 'distinct_nontrivial': 8000}}
 N = {'quick': 1000, 'thorough': 14000}
 
 
